@@ -89,7 +89,7 @@ func ContractFilesArch(repo, arch string, extraDirs ...string) []string {
 	}
 	var out []string
 	filepath.Walk(repo, func(p string, info os.FileInfo, err error) error {
-		if err == nil && !info.IsDir() && info.Name() == "zz_contracts_verif.go" {
+		if err == nil && !info.IsDir() && (info.Name() == "zz_contracts_verif.go" || info.Name() == "zz_contracts_verif_"+arch+".go") {
 			out = append(out, p)
 		}
 		return nil
